@@ -36,6 +36,21 @@ func newDomainRoutingTracker() *domainRoutingTracker {
 	}
 }
 
+// clearAndForget empties the kernel table through clear and forgets every
+// owner. Both happen under the tracker lock, so no syncOwner can slip between
+// emptying the table and forgetting its mirror. It is for callers that wipe
+// domain_routing_map behind the tracker's back and then replay the cache.
+func (t *domainRoutingTracker) clearAndForget(clear func() error) error {
+	t.mu.Lock()
+	defer t.mu.Unlock()
+	if err := clear(); err != nil {
+		return err
+	}
+	t.owners = make(map[string]domainRoutingOwnerSnapshot)
+	t.ips = make(map[[4]uint32]*domainRoutingIPState)
+	return nil
+}
+
 func cloneDomainRoutingIPSet(src map[[4]uint32]struct{}) map[[4]uint32]struct{} {
 	if len(src) == 0 {
 		return nil
